@@ -36,6 +36,13 @@ TogetherNext == LET ph == Len(hist) % 5 IN
                    \/ ph = 3 /\ SvcReg("s2", "agent", "x2")
                    \/ ph = 4 /\ SvcLeaveTogether
 TogetherSpec == Init /\ [][TogetherNext]_vars
+(* listeners across restarts: one that cannot bind while the teamserver starts, then a clean start *)
+RestartNext == \/ hist = <<>> /\ Add("n1", "http")
+               \/ Len(hist) = 1 /\ \E k \in {"smb", "ext"} : Add("n2", k)
+               \/ Len(hist) = 2 /\ \E b \in BOOLEAN : Restart(b)
+               \/ Len(hist) = 3 /\ Restart(FALSE)
+               \/ Len(hist) = 4 /\ Serve("n1", 0)
+RestartSpec == Init /\ [][RestartNext]_vars
 DupNext == \/ hist = <<>> /\ SvcConnect("s1", TRUE)
            \/ Len(hist) = 1 /\ SvcConnect("s2", TRUE)
            \/ Len(hist) = 2 /\ \E w \in {"agent", "listener", "exc2"} : SvcReg("s1", w, "x1")
